@@ -714,18 +714,18 @@ func verifC03RunHistory(dir string, seq int64, al []verifC03Op, fixed []uint8, g
 				_, existed := cur.edges[verifC03Key(ids[op.p], x)]
 				if existed {
 					if pl >= 2 {
-						class = "edge point (role or tombstone) on one placement of a node that has several parents: the delta is applied to every placement"
+						class = "edge point (role or tombstone) on one placement of a node that has several parents (mirrored node)"
 					} else {
 						class = "edge point on the only placement of a node"
 					}
 				} else {
 					switch {
 					case pl >= 1 && ch >= 1:
-						class = "new edge for a node that is already placed elsewhere AND already has child edges"
+						class = "new edge for a node that is already placed elsewhere and already has child edges (mirror of a populated subtree)"
 					case pl >= 1:
-						class = "new edge for a node that is already placed elsewhere (mirror): the initial hash is XORed into the other placements"
+						class = "new edge for a node that is already placed elsewhere (mirror creation)"
 					case ch >= 1:
-						class = "new edge above a node that already has child edges: initial hash misses the child hashes"
+						class = "new edge above a node that already has child edges (populated subtree)"
 					default:
 						class = "new edge for a node without other placements or children"
 					}
